@@ -23,6 +23,9 @@ def main(argv=None):
     r.add_argument("path")
     r.add_argument("--quiet", action="store_true")
     sub.add_parser("setup")
+    g = sub.add_parser("rungroup")
+    g.add_argument("inp")
+    g.add_argument("outp")
     a = ap.parse_args(argv)
     if a.cmd == "check":
         from vtk import runner
@@ -32,6 +35,10 @@ def main(argv=None):
         from vtk import runner
 
         return runner.run_replay(a.path, a.quiet)
+    if a.cmd == "rungroup":
+        from vtk import runner
+
+        return runner.run_group_file(a.inp, a.outp)
     if a.cmd == "setup":
         from vtk import setup
 
@@ -39,4 +46,13 @@ def main(argv=None):
 
 
 if __name__ == "__main__":
-    sys.exit(main())
+    try:
+        rc = main()
+    except SystemExit:
+        raise
+    except BaseException:  # a harness failure must never look like a verdict (exit 1)
+        import traceback
+
+        traceback.print_exc()
+        rc = 2
+    sys.exit(rc)
